@@ -31,6 +31,7 @@ class HookLock(object):
     def __init__(self, h, kind):
         self.h, self.kind = h, kind
         self.l = threading.RLock()
+        self.held = 0
 
     def acquire(self, *a, **k):
         return self.__enter__()
@@ -44,10 +45,12 @@ class HookLock(object):
             h.hook(self.kind)
         self.l.acquire()
         h.depth += 1
+        self.held += 1
         return True
 
     def __exit__(self, *a):
         self.h.depth -= 1
+        self.held -= 1
         self.l.release()
 
 
@@ -71,6 +74,25 @@ class FakeCondition(object):
         self.h.notifies += 1
 
 
+class Hdr(object):
+    """frame header of a response, as far as Connection.process_msg's orphaned-stream phase reads it"""
+    def __init__(self, stream):
+        self.stream = stream
+        self.version, self.flags, self.opcode = 4, 0, 8
+
+
+class OrphanSet(set):
+    """Connection.orphaned_request_ids; a removal that happens while the connection's lock is NOT held opens a window in
+    which in_flight and the orphan set disagree: the harness lets the pool's other threads run there"""
+    conn = None
+
+    def remove(self, x):
+        c = self.conn
+        if c is not None and c.lock.held == 0:
+            c._h.window_orphan_removal(c)
+        set.remove(self, x)
+
+
 def make_conn_class(h):
     from cassandra.connection import Connection
 
@@ -83,13 +105,20 @@ def make_conn_class(h):
             self._defunct = False
             Connection.__init__(self, *a, **kw)
             self.lock = HookLock(h, 'conn')
+            self._h = h
+            self.orphaned_request_ids = OrphanSet()
+            self.orphaned_request_ids.conn = self
             self.cid = None
             self.sent = []
             self.close_calls = 0
 
         def close(self):
-            if h.armed and h.depth == 0 and sys._getframe(1).f_code.co_name == 'shutdown' and h.pool._connection is self:
+            caller = sys._getframe(1).f_code.co_name
+            if h.armed and h.depth == 0 and caller == 'shutdown' and h.pool._connection is self:
                 h.hook('closemain')     # shutdown(): middle, unlocked region
+            if caller in ('_replace', 'return_connection') and self.lock.held == 0 and self.cid is not None \
+                    and not self.is_closed and not h.pool.is_shutdown:
+                h.window_close(self, caller)
             self.close_calls += 1
             self.is_closed = True
             h.on_close(self, sys._getframe(1).f_code.co_name)
@@ -178,6 +207,7 @@ class Harness(object):
         self.max_in_flight, self.threshold = max_in_flight, threshold
         self.armed, self.depth, self.notifies, self.nested = False, 0, 0, False
         self.rng = None
+        self.in_window = False
         self.nchecking = None
         self.checking = None      # task taken from the executor whose first region has not started yet
         self.items = []           # trace, same layout as Model.Pool.trace
@@ -221,6 +251,54 @@ class Harness(object):
             return
         live = len([1 for s in self.streams if s[0] == c.cid])
         self.close_log.append((c.cid, live, caller, bool(self.pool.is_shutdown or c._defunct)))
+
+    # ------------------------------------------------------------ windows that exist only if a lock is missing
+    def window_close(self, conn, caller):
+        """close() of `conn` decided by the replacement machinery while conn.lock is NOT held: a borrower that read
+        pool._connection (== conn) earlier can take a stream between the idle test and the close.  Re-enact exactly that
+        borrower with the real borrow_connection (its _get_connection result is the stale `conn`)."""
+        pool = self.pool
+        saved = (self.armed, self.P.time)
+        self.armed = False
+        self.P.time = FakeTime()
+        pool._get_connection = lambda: conn
+        try:
+            got, rid = pool.borrow_connection(timeout=0)
+            self.streams.append((got.cid, rid))
+            self.problem('HostConnection.%s.close-not-under-connection-lock' % caller,
+                         '%s decided to close connection %d (idle: in_flight == #orphans) without holding that connection\'s lock; '
+                         'a borrower that had read pool._connection before the swap took stream %d on it between the test and '
+                         'close(): the connection is closed with a live request' % (caller, conn.cid, rid), 'C13_no_close_while_live')
+        except Exception:
+            pass
+        finally:
+            del pool._get_connection
+            self.armed, self.P.time = saved
+
+    def window_orphan_removal(self, conn):
+        """orphaned_request_ids is about to be updated outside conn.lock, after in_flight was already decremented: let the
+        executor run a queued _replace task in that window (its idle test reads in_flight and len(orphaned_request_ids))"""
+        if self.in_window or not self.queue or self.checking is not None or self.nchecking is not None:
+            return
+        self.in_window = True
+        saved = (self.armed, self.P.time, self.factory_ok)
+        self.armed, self.factory_ok = False, True
+        before = len(self.close_log)
+        try:
+            fn, args = self.queue.pop(0)
+            was = self.pool._is_replacing
+            fn(*args)
+            if was and not self.pool._is_replacing and args[0]._thr:
+                self.replaced.add(args[0].cid)
+            for (cid, live, where, excluded) in self.close_log[before:]:
+                if live > 0 and not excluded:
+                    self.problem('Connection.process_msg.orphan-removal-outside-lock',
+                                 'late response on connection %d: in_flight was decremented under the lock but the orphan set '
+                                 'was updated after it; _replace ran in between, saw in_flight == #orphans and closed connection '
+                                 '%d with %d live request(s)' % (conn.cid, cid, live), 'C13_no_close_while_live')
+        finally:
+            self.in_window = False
+            self.armed, self.P.time, self.factory_ok = saved
 
     # ------------------------------------------------------------ observation
     def snap(self):
@@ -353,13 +431,9 @@ class Harness(object):
                 self.orphans.remove(st[0])
                 conn = self.conns[c]
 
-                def region():      # Connection.process_msg, orphaned stream
-                    with conn.lock:
-                        conn.in_flight -= 1
-                        conn.orphaned_request_ids.remove(st[0][1])
-                self.quiet(region)
-                conn._on_orphaned_stream_released()
-                self.quiet(lambda: conn.request_ids.append(st[0][1]))
+                # the REAL Connection.process_msg: orphaned-stream phase (decrement + removal under conn.lock), release
+                # notification, then (no callback registered for this stream) the id is recycled under conn.lock
+                conn.process_msg(Hdr(st[0][1]), b'')
             elif kind == 'defunct':
                 conn = self.conns[mop[1]]
                 self.quiet(lambda: conn.defunct(ConnectionException('scripted failure')))
